@@ -99,6 +99,12 @@ type fullCfg struct {
 	Relevant func(err error) bool // which oracle failures count for this property (others cut the case short)
 	Fsck     FsckOpts
 	NoTrace  bool // apply the no-trace oracle after every failed request
+	// ReadHoles: also read holes (on a full disk such a read may end early; it is not a failing request)
+	ReadHoles bool
+	// Coherence: check cache-vs-disk coherence after every step
+	Coherence bool
+	// Reclaim: at the end delete everything and require that all space is back (C05's oracle)
+	Reclaim bool
 }
 
 func runFullDiskCase(t *rapid.T, fc fullCfg) {
@@ -264,6 +270,26 @@ func runFullDiskCase(t *rapid.T, fc fullCfg) {
 		b := pick(t, bs, "block")
 		return x.Read(LiveRef(f), b*BlockSize, BlockSize)
 	})
+	if fc.ReadHoles {
+		acts["readhole"] = wrap("READHOLE", func(t *rapid.T) error {
+			f := file(t)
+			if f == nil || f.Size == 0 {
+				return nil
+			}
+			nblk := (f.Size + BlockSize - 1) / BlockSize
+			b := rapid.Uint64Range(0, nblk-1).Draw(t, "block")
+			return x.Read(LiveRef(f), b*BlockSize, uint32(pick(t, []int{1, 4096, 3 * 4096}, "cnt")))
+		})
+		// sparse files: sizes far beyond the data, so that reads meet holes under missing index blocks
+		acts["sparse"] = wrap("SPARSE", func(t *rapid.T) error {
+			f := file(t)
+			if f == nil {
+				return nil
+			}
+			sz := uint64(pick(t, []int{9, 12, 30, 520, 521, 600, 1100}, "blocks")) * BlockSize
+			return x.Setattr(LiveRef(f), &sz, false)
+		})
+	}
 	acts["remove"] = wrap("REMOVE", func(t *rapid.T) error { dr := dirOf(t); return x.Remove(dr, g.OldName(t, dr.N)) })
 	acts["rmdir"] = wrap("RMDIR", func(t *rapid.T) error { dr := dirOf(t); return x.Rmdir(dr, g.OldName(t, dr.N)) })
 	acts["lookup"] = wrap("LOOKUP", func(t *rapid.T) error { dr := dirOf(t); return x.Lookup(dr, g.OldName(t, dr.N)) })
@@ -388,6 +414,13 @@ func runFullDiskCase(t *rapid.T, fc fullCfg) {
 		if cut {
 			t.Skip("case cut short")
 		}
+		if fc.Coherence {
+			var cerr error
+			x.call(func() { x.S.Quiesce(); cerr = CacheCoherent(x.S.N.VerifFsState()) })
+			if cerr != nil {
+				judge(&OracleErr{Kind: "coherence", Msg: cerr.Error() + "\n  after: " + x.Log[len(x.Log)-1]})
+			}
+		}
 		if steps%10 == 0 {
 			nfsck++
 			if _, err := quiescentFsck(x, fc.Fsck); err != nil {
@@ -410,6 +443,13 @@ func runFullDiskCase(t *rapid.T, fc fullCfg) {
 		if cerr != nil {
 			judge(&OracleErr{Kind: "coherence", Msg: cerr.Error()})
 		}
+	}
+	if fc.Reclaim && !cut && !inodeMode {
+		x.SpaceMayBind = false
+		if _, err := reclaimCheck(x, false); err != nil {
+			judge(&OracleErr{Kind: "reclaim", Msg: err.Error()})
+		}
+		St.Class("full_disk_history_emptied_and_counted")
 	}
 	St.Eval(1)
 	St.ClassN("failed_requests_checked_for_traces", nfailedChecked)
@@ -458,6 +498,24 @@ func TestC12Full(t *testing.T) {
 		runFullDiskCase(t, fullCfg{Prop: "C12", Fsck: FsckOpts{ZeroFree: true},
 			Relevant: func(err error) bool {
 				return errKind(err) == "data-exposed" || (errKind(err) == "fsck" && strings.Contains(err.Error(), "[free-not-zero]"))
+			}})
+	})
+}
+
+// C05 on nearly-full disks: after the history everything is deleted and all space must be back.
+func TestC05Full(t *testing.T) {
+	rapid.Check(t, func(t *rapid.T) {
+		runFullDiskCase(t, fullCfg{Prop: "C05", Fsck: FsckOpts{Allocators: true}, ReadHoles: true, Reclaim: true,
+			Relevant: func(err error) bool { return errKind(err) == "reclaim" }})
+	})
+}
+
+// C10 on nearly-full disks: after every step the caches still agree with the disk.
+func TestC10Full(t *testing.T) {
+	rapid.Check(t, func(t *rapid.T) {
+		runFullDiskCase(t, fullCfg{Prop: "C10", Fsck: FsckOpts{Allocators: true}, ReadHoles: true, Coherence: true,
+			Relevant: func(err error) bool {
+				return errKind(err) == "coherence" || (errKind(err) == "fsck" && strings.Contains(err.Error(), "[allocator]"))
 			}})
 	})
 }
